@@ -42,12 +42,6 @@ set_option linter.unusedSectionVars false
 section
 variable {R : Type} [DecidableEq R]
 
-/-- what the rule scanner must hold for an active profile -/
-def outOf (st : Arc R) (p : String) : OutRules R :=
-  match alGet p st.profiles with
-  | some r => .real r
-  | none => .dummyDrop
-
 /-- **View invariant**: the rule scanner holds exactly the active profiles, each with its real
 rules if the profile is known and with the deny stand-in otherwise. -/
 def ViewInv (st : Arc R) : Prop :=
